@@ -172,6 +172,7 @@ type Obligation struct {
 	Bounded string
 	Cover   bool // goal is a reachability cover: expected SAT
 	Static  string
+	SubGoals []string // when set, the goal is the conjunction of these (one per return site) and each is discharged by its own query
 	Group   string // proof group: only invariants of the same group (and ungrouped ones) are assumed
 	Result  *SolveResult
 }
